@@ -80,6 +80,10 @@ enum Ev {
     Timeout,
     /// client-initiated abort at the coordinator
     ClientAbort(u8),
+    /// the driver acts on a fully voted (Prepared) transaction: commit() and, only on Ok, TxCommit
+    /// to every shard. A separate step, so that timeouts and aborts can fall between the last
+    /// vote and the commit decision.
+    CoordCommit(u8),
 }
 #[derive(Clone, Copy, Debug, PartialEq, Eq, Hash, PartialOrd, Ord)]
 enum Decision {
@@ -104,6 +108,15 @@ fn key_of(t: u8, s: u8) -> String {
     } else {
         format!("k_t{t}_s{s}")
     }
+}
+/// operations of transaction t on shard s: a put; the last transaction additionally deletes a key
+/// that does not exist on shard 0 (deletes are idempotent: committing it must not fail)
+fn ops_of(cfg: &Cfg, t: u8, s: u8) -> Vec<Transaction> {
+    let mut v = vec![Transaction::Put { key: key_of(t, s), data: value_of(t) }];
+    if t + 1 == cfg.ntx && s == 0 {
+        v.push(Transaction::Delete { key: format!("missing_t{t}") });
+    }
+    v
 }
 fn value_of(t: u8) -> Vec<u8> {
     vec![100 + t]
@@ -240,7 +253,7 @@ impl World {
                 let Ok(tx) = self.coord.begin(&"coord".to_string(), &shards) else { return false };
                 self.ids[*t as usize] = Some(tx.tx_id);
                 for s in 0..cfg.shards {
-                    let m = Message::TxPrepare(TxPrepareMsg { tx_id: tx.tx_id, coordinator: "coord".into(), shard_id: s as usize, operations: vec![Transaction::Put { key: key_of(*t, s), data: value_of(*t) }], delta_embedding: SparseVector::new(0), timeout_ms: 5_000 });
+                    let m = Message::TxPrepare(TxPrepareMsg { tx_id: tx.tx_id, coordinator: "coord".into(), shard_id: s as usize, operations: ops_of(cfg, *t, s), delta_embedding: SparseVector::new(0), timeout_ms: 5_000 });
                     self.net.insert(Msg::Prepare { t: *t, s }, m);
                 }
             }
@@ -263,6 +276,15 @@ impl World {
                         if matches!(m, Msg::Abort { .. }) && was_prepared && !self.parts[*s as usize].prepared.read().contains_key(&id) {
                             self.discarded_yes.insert((*t, *s));
                         }
+                        if matches!(m, Msg::Commit { .. }) && was_prepared {
+                            // the shard had promised (voted yes) and is told to commit: its writes must be there now
+                            let shows = self.parts[*s as usize].store().get(&key_of(*t, *s)).ok().and_then(|d| d.get("data").cloned()) == Some(TensorValue::Scalar(ScalarValue::Bytes(value_of(*t))));
+                            if !shows {
+                                self.discarded_yes.insert((*t, *s));
+                                let ack = match &resp { Some(Message::TxAck(a)) => format!("ack success={} error={:?}", a.success, a.error), _ => "no ack".into() };
+                                self.fail("commit-not-applied-by-prepared-shard", format!("shard {s} had prepared t{t} and was told to commit, but its store does not show the write ({ack})"));
+                            }
+                        }
                         if let Some(Message::TxPrepareResponse(r)) = &resp {
                             let kind = match r.vote {
                                 TxVote::Yes { .. } => 0,
@@ -281,13 +303,7 @@ impl World {
                         }
                         match res {
                             Ok(Some(TxPhase::Prepared)) => {
-                                // minimal driver (trusted): decide commit, and only on Ok tell the participants
-                                if self.coord.commit(r.tx_id).is_ok() {
-                                    self.decide(*t, Decision::Commit);
-                                    for s2 in 0..cfg.shards {
-                                        self.net.insert(Msg::Commit { t: *t, s: s2 }, Message::TxCommit(TxCommitMsg { tx_id: r.tx_id, shards: vec![s2 as usize] }));
-                                    }
-                                }
+                                // the commit decision is taken by a later CoordCommit event
                             }
                             Ok(Some(TxPhase::Aborting)) => {
                                 self.decide(*t, Decision::Abort);
@@ -312,6 +328,19 @@ impl World {
                     }
                 }
                 self.flush_aborts();
+            }
+            Ev::CoordCommit(t) => {
+                let Some(id) = self.ids[*t as usize] else { return false };
+                if !self.coord.get(id).is_some_and(|x| x.phase == TxPhase::Prepared) {
+                    return false;
+                }
+                // minimal driver (trusted): decide commit, and only on Ok tell the participants
+                if self.coord.commit(id).is_ok() {
+                    self.decide(*t, Decision::Commit);
+                    for s2 in 0..cfg.shards {
+                        self.net.insert(Msg::Commit { t: *t, s: s2 }, Message::TxCommit(TxCommitMsg { tx_id: id, shards: vec![s2 as usize] }));
+                    }
+                }
             }
             Ev::ClientAbort(t) => {
                 let Some(id) = self.ids[*t as usize] else { return false };
@@ -366,6 +395,11 @@ impl World {
         for t in 0..cfg.ntx {
             if self.ids[t as usize].is_none() && (t == 0 || self.ids[t as usize - 1].is_some()) {
                 v.push(Ev::Begin(t));
+            }
+        }
+        for t in 0..cfg.ntx {
+            if self.ids[t as usize].and_then(|id| self.coord.get(id)).is_some_and(|x| x.phase == TxPhase::Prepared) {
+                v.push(Ev::CoordCommit(t));
             }
         }
         for m in self.net.keys() {
